@@ -469,6 +469,17 @@ def tile(it, v, reps, node):
     return out
 
 
+def _scalar_of_arrays(t, depth=0):
+    """a number: constants and complete reductions (mean / sum / ... over all axes) of arrays, combined by arithmetic"""
+    if depth > 8:
+        return False
+    if t.op == "const":
+        return isinstance(t.args[0], (int, float))
+    if t.op in ("add", "sub", "mul", "div", "neg", "abs", "sqrt", "float"):
+        return all(_scalar_of_arrays(x, depth + 1) for x in t.args if hasattr(x, "op"))
+    return t.op == "call" and str(t.args[0]).startswith("reduce:") and len(t.args) == 3 and t.args[2].op == "const" and t.args[2].args[0] is None
+
+
 def combine_filtered(it, opn, a, b, node):
     """linear combinations of filtered versions of the same signal: x - lowpass(x) is x filtered with gain 1 - g"""
     fa = a if isinstance(a, Filtered) else None
@@ -484,6 +495,11 @@ def combine_filtered(it, opn, a, b, node):
             return Filtered(f.src, g, f.axes, f.transformed, f.real)
         elif opn == "mul" and is_pyconst(other):
             g = mk("mul", to_term(other), f.gain if f.gain is not None else const(1.0))
+            return Filtered(f.src, g, f.axes, f.transformed, f.real)
+        elif opn in ("mul", "div") and isinstance(other, (Val, Unk)) and getattr(other, "axes", None) is None and fa is not None \
+                and (getattr(other, "scalar_of_image", False) or _scalar_of_arrays(to_term(other))):
+            # scaled by a number computed from an image (a mean, a norm): the factor becomes part of the gain, which then depends on the data
+            g = mk(opn, f.gain if f.gain is not None else const(1.0), to_term(other))
             return Filtered(f.src, g, f.axes, f.transformed, f.real)
         elif opn in ("add", "sub") and isinstance(other, (Val, Unk)):
             # something that is not a filtered version of the map is added to the filtered map (a constant, a mean): kept as an
